@@ -75,9 +75,31 @@ pub fn verif_total_stake(vals: &Vec<ValidatorInfo>) -> (r: Stake)  // validators
     requires total_of(vals@) <= u64::MAX        // the sum of all stakes fits (EpochInfo computes the same sum)
     ensures r.0 == total_of(vals@)
 { unimplemented!() }
-// `v.shuffle(&mut rand::rng())`: some permutation of the list (drawn from the THREAD-LOCAL generator: observation F9)
+// Random generators as far as the partition cares: is the stream a function of the program's inputs (a generator seeded
+// from a value) or not (the thread-local generator)?  `rand::rng()` and `StdRng::seed_from_u64` resolve to these stand-ins.
+#[verifier::external_body] pub struct VRng { _p: () }
+impl VRng {
+    pub uninterp spec fn deterministic(&self) -> bool;
+}
+pub mod rand {
+    // rand::rng(): the thread-local generator - a different stream on every node and every run (nothing is ensured)
+    #[verifier::external_body]
+    pub fn rng() -> (r: super::VRng) { unimplemented!() }
+}
+pub struct StdRng;
+impl StdRng {
+    // SeedableRng::seed_from_u64: the stream is a function of the seed
+    #[verifier::external_body]
+    pub fn seed_from_u64(seed: u64) -> (r: VRng) ensures r.deterministic() { unimplemented!() }
+}
+// `v.shuffle(&mut rng)` (R8): some permutation of the list, chosen by the generator
 #[verifier::external_body]
-pub fn verif_shuffle(v: &mut Vec<ValidatorInfo>)
+pub fn verif_shuffle(v: &mut Vec<ValidatorInfo>, rng: &mut VRng)
+    requires
+        // [C16.partition_is_a_function_of_the_validator_set C17.partition_is_a_function_of_the_validator_set] every node must derive
+        // the same partition (hence the same relay committees) from the same validator set: the permutation may be
+        // pseudo-random but not drawn from a generator that differs between nodes (finding F18, formerly observation F9)
+        old(rng).deterministic(),
     ensures
         final(v)@.to_multiset() == old(v)@.to_multiset(), final(v)@.len() == old(v)@.len(),
         // consequences of being a permutation that are used below
@@ -128,7 +150,7 @@ props C17
 ret r
 rewrite*[R8] `vec![Vec::new(); num_bins]` => `verif_vec_of_empty(num_bins)`
 rewrite[R8] `validators.iter().map(|v| v.stake).sum()` => `verif_total_stake(&validators)`
-rewrite[R8] `validators_random.shuffle(&mut rand::rng());` => `verif_shuffle(&mut validators_random);`
+rewrite[R8] `validators_random.shuffle(&mut VANY);` => `verif_shuffle(&mut validators_random, &mut VANY);`
 rewrite[R4] `for v in validators_random {` => `let mut verif_i: usize = 0; while verif_i < validators_random.len() { let v = &validators_random[verif_i]; verif_i += 1;`
 rewrite[R8] `bin_validators[current_bin].push(v.id);` => `verif_push_at(&mut bin_validators, current_bin, v.id);`
 rewrite[R8] `stake.min(stake_per_bin - current_bin_stake)` => `verif_stake_min(stake, stake_per_bin - current_bin_stake)`
